@@ -51,6 +51,7 @@ func (v *VMValue) ToJSONRaw(save map[*VMValue]bool) ([]byte, error) {
 			return nil, errors.New("值错误: 序列化时检测到循环引用")
 		}
 		save[v] = true
+		defer delete(save, v) // only containers on the current path count as a cycle
 		ad, _ := v.ReadArray()
 		lst := [][]byte{}
 		for _, i := range ad.List {
@@ -75,9 +76,10 @@ func (v *VMValue) ToJSONRaw(save map[*VMValue]bool) ([]byte, error) {
 			return nil, errors.New("值错误: 序列化时检测到循环引用")
 		}
 		save[v] = true
+		defer delete(save, v)
 		cd := v.MustReadDictData()
 
-		dictJson, err := cd.Dict.ToJSON()
+		dictJson, err := cd.Dict.toJSONRaw(save)
 		if err != nil {
 			return nil, err
 		}
